@@ -416,9 +416,11 @@ class GenAudit:
 
     # -- end of a generation ------------------------------------------------
     def finish(self, result, exc):
-        self._flush_standalone(None)
         if exc is not None:
+            # the decisions taken for a step that never completed cannot be judged (the exception itself is C06's business)
+            self.pending.clear()
             return
+        self._flush_standalone(None)
         if result is None:
             return
         final_uids = [u for (u, off, n) in getattr(result, "_gb_inst", [])]
